@@ -381,6 +381,32 @@ def analyse_walk(program, rep, f, world):
                         and e.target.id == wl:
                     if e.sym.text == f'{popped}.__subclasses__()':
                         extended = True
+                    sn = e.sym.node
+                    if isinstance(sn, (ast.ListComp, ast.GeneratorExp)) \
+                            and len(sn.generators) == 1 and norm(
+                                sn.generators[0].iter) \
+                            == f'{popped}.__subclasses__()' \
+                            and norm(sn.elt) == norm(sn.generators[0].target) \
+                            and all(isinstance(c_, ast.Compare)
+                                    and len(c_.ops) == 1
+                                    and isinstance(c_.ops[0], ast.NotIn)
+                                    and norm(c_.left) == norm(sn.elt)
+                                    and isinstance(c_.comparators[0], ast.Name)
+                                    and not norm(c_.comparators[0])
+                                    .startswith('self')
+                                    for c_ in sn.generators[0].ifs):
+                        # subclasses already visited are left out of the work
+                        # list (they would be skipped when popped): still
+                        # every unvisited subclass is pushed
+                        vis_names = {norm(c_.comparators[0])
+                                     for c_ in sn.generators[0].ifs}
+                        tested = {x.sym.text.split(' in ', 1)[1]
+                                  for x in tr if x.kind == 'cond'
+                                  and x.sym.text.startswith(f'{popped} in ')}
+                        if vis_names <= tested:
+                            # (the set filtered on is the one the visited
+                            # test of this walk uses)
+                            extended = True
                 elif e.kind in ('yield', 'for'):
                     if e.kind == 'yield' or any(
                             w_ in e.sym.text for w_ in TABLE_WORDS):
